@@ -19,10 +19,10 @@
 (***************************************************************************)
 EXTENDS MonCluster, MonCommon
 
-CONSTANTS NN, Horizon, Mode, Pol, NotifyDown, MaxTx, PGossip, PAnnounce
+CONSTANTS NN, Horizon, Mode, Pol, NotifyDown, MaxTx, PGossip, PAnnounce, PAnnDown
 
-VARIABLES st, net, tmr, now, status, g, bad, budget, formedAt
-vars == <<st, net, tmr, now, status, g, bad, budget, formedAt>>
+VARIABLES st, net, tmr, now, status, g, bad, budget, formedAt, part
+vars == <<st, net, tmr, now, status, g, bad, budget, formedAt, part>>
 
 Nodes == 0..(NN - 1)
 IdOf(n) == <<n + 1, 0>>
@@ -31,10 +31,10 @@ Prefs == {Ranked({IdOf(n) : n \in Nodes}, <<>>), Ranked({IdOf(n) : n \in Nodes},
 Cfg == [period |-> 3, rtt |-> 1, fanout |-> 2, maxtx |-> MaxTx, s2d |-> 5, rda |-> 60, maxpkt |-> 1400,
         notifydown |-> NotifyDown,
         pa |-> IF PAnnounce THEN <<[f |-> 3, n |-> 1]>> ELSE <<>>,
-        pad |-> <<>>,
+        pad |-> IF PAnnDown THEN <<[f |-> 4, n |-> 2]>> ELSE <<>>,
         pg |-> IF PGossip THEN <<[f |-> 2, n |-> 2]>> ELSE <<>>]
 
-Hdr0 == [n |-> NN, period |-> Cfg.period, s2d |-> Cfg.s2d, fanout |-> Cfg.fanout, pad |-> 0, run |-> 0,
+Hdr0 == [n |-> NN, period |-> Cfg.period, s2d |-> Cfg.s2d, fanout |-> Cfg.fanout, pad |-> IF PAnnDown THEN 4 ELSE 0, run |-> 0,
          driver |-> Mode, pa |-> IF PAnnounce THEN 3 ELSE 0, maxtx |-> MaxTx]
 
 Tape(pref) == [EmptyTape EXCEPT !.auto = TRUE, !.pref = pref]
@@ -58,16 +58,17 @@ Mon(g0, g1, e) ==
       [] Mode = "c03" -> C03Call(g0, g1, e)
       [] Mode = "c04" -> C04Call(g0, g1, e)
       [] Mode = "c18" -> C18Call(g0, g1, e)
+      [] Mode = "c05" -> C05Call(g0, g1, e)
 
 Commit(n, c, netRest, tmrRest) ==
     LET g1 == GCall(g, c.e)
-        g2 == C03Track(g1, c.e)
+        g2 == C05Track(C03Track(g1, c.e), c.e)
     IN /\ st' = [st EXCEPT ![n] = c.st]
        /\ net' = netRest \o c.net
        /\ tmr' = tmrRest \o c.tmr
        /\ g' = g2
        /\ bad' = bad \cup Mon(g, g1, c.e)
-       /\ UNCHANGED <<now, status, budget>>
+       /\ UNCHANGED <<now, status, budget, part>>
 
 DropAt(s, i) == [j \in 1..(Len(s) - 1) |-> IF j < i THEN s[j] ELSE s[j + 1]]
 
@@ -88,12 +89,17 @@ Init ==
     /\ bad = {}
     /\ budget = 1
     /\ formedAt = -1
+    /\ part = "none"
+
+\* C05: the split {0} | {1..}; a datagram crossing the cut is lost
+Grp(n) == IF n = 0 THEN 0 ELSE 1
+Crosses(m) == part = "cut" /\ Grp(m.from) # Grp(m.to)
 
 Deliver ==
     \E i \in DOMAIN net : \E pref \in Prefs :
         LET m == net[i] IN
-        IF status[m.to] # "up" /\ status[m.to] # "left"
-        THEN /\ net' = DropAt(net, i) /\ UNCHANGED <<st, tmr, now, status, g, bad, budget>>
+        IF (status[m.to] # "up" /\ status[m.to] # "left") \/ Crosses(m)
+        THEN /\ net' = DropAt(net, i) /\ UNCHANGED <<st, tmr, now, status, g, bad, budget, part>>
         ELSE Commit(m.to, Call(m.to, "data", m.d, pref), DropAt(net, i), tmr)
 
 \* the timer node n fires next: earliest deadline, then Timer::seq
@@ -111,14 +117,14 @@ Fire ==
         LET i == NextTimer(n) IN
         /\ i # 0
         /\ IF status[n] = "crashed"
-           THEN /\ tmr' = DropAt(tmr, i) /\ UNCHANGED <<st, net, now, status, g, bad, budget>>
+           THEN /\ tmr' = DropAt(tmr, i) /\ UNCHANGED <<st, net, now, status, g, bad, budget, part>>
            ELSE Commit(n, Call(n, "timer", tmr[i].t, pref), net, DropAt(tmr, i))
 
 Quiet == net = <<>> /\ \A i \in DOMAIN tmr : tmr[i].due > now \/ Mode = "c18"
 
 Tick == /\ Quiet /\ now < Horizon /\ Mode # "c18"
         /\ now' = now + 1
-        /\ UNCHANGED <<st, net, tmr, status, g, bad, budget>>
+        /\ UNCHANGED <<st, net, tmr, status, g, bad, budget, part>>
 
 Everyone == \A x \in Nodes : \A y \in Nodes \ {x} : IdOf(y) \in ActiveIds(st[x].mem)
 
@@ -129,7 +135,7 @@ Crash == /\ Mode = "c03" /\ budget > 0 /\ Everyone
               /\ status' = [status EXCEPT ![f] = "crashed"]
               /\ g' = C03Fault(g, [node |-> f, id |-> st[f].id, now |-> now], FALSE)
               /\ budget' = budget - 1
-              /\ UNCHANGED <<st, net, tmr, now, bad>>
+              /\ UNCHANGED <<st, net, tmr, now, bad, part>>
 
 Leave == /\ Mode = "c03" /\ budget > 0 /\ Everyone
          /\ \E f \in Nodes : \E pref \in Prefs :
@@ -143,16 +149,27 @@ Leave == /\ Mode = "c03" /\ budget > 0 /\ Everyone
                     /\ bad' = bad \cup C03Call(g0, g1, c.e)
               /\ status' = [status EXCEPT ![f] = "left"]
               /\ budget' = budget - 1
-              /\ UNCHANGED now
+              /\ UNCHANGED <<now, part>>
 
 Drop == /\ Mode = "c04" /\ budget > 0 /\ Everyone
         /\ \E i \in DOMAIN net :
              /\ net' = DropAt(net, i)
              /\ g' = [g EXCEPT !.tDrop = now]
              /\ budget' = 0
-             /\ UNCHANGED <<st, tmr, now, status, bad>>
+             /\ UNCHANGED <<st, tmr, now, status, bad, part>>
 
-Next == (Deliver \/ Fire \/ Tick \/ Crash \/ Leave \/ Drop) /\ formedAt' = (IF formedAt < 0 /\ Everyone' THEN now' ELSE formedAt)
+\* C05: partition once the cluster is formed; heal at any moment after both sides declared each other Down
+MutualDown == \A x \in Nodes : \A y \in Nodes :
+                 Grp(x) # Grp(y) => \E i \in DOMAIN st[x].mem : Addr(st[x].mem[i].id) = y + 1 /\ st[x].mem[i].st = "D"
+Cut == /\ Mode = "c05" /\ part = "none" /\ Everyone /\ Quiet
+       /\ part' = "cut"
+       /\ UNCHANGED <<st, net, tmr, now, status, g, bad, budget>>
+Heal == /\ Mode = "c05" /\ part = "cut" /\ MutualDown /\ Quiet
+        /\ part' = "healed"
+        /\ g' = [g EXCEPT !.tHeal = now, !.toldDown = {}]
+        /\ UNCHANGED <<st, net, tmr, now, status, bad, budget>>
+
+Next == (Deliver \/ Fire \/ Tick \/ Crash \/ Leave \/ Drop \/ Cut \/ Heal) /\ formedAt' = (IF formedAt < 0 /\ Everyone' THEN now' ELSE formedAt)
 
 Spec == Init /\ [][Next]_vars
 
@@ -207,7 +224,7 @@ Init18 ==
     /\ status = [n \in Nodes |-> "up"]
     /\ g = [GInit(Hdr0) EXCEPT !.ids = [n \in Nodes |-> <<n + 1, 1>>], !.status = [n \in Nodes |-> "up"],
                                !.view = [n \in Nodes |-> <<>>], !.told = [n \in Nodes |-> {}]]
-    /\ bad = {} /\ budget = 0 /\ formedAt = -1
+    /\ bad = {} /\ budget = 0 /\ formedAt = -1 /\ part = "none"
 
 Spec18 == Init18 /\ [][Deliver /\ UNCHANGED formedAt]_vars /\ WF_vars(Deliver /\ UNCHANGED formedAt)
 Terminates == <>(net = <<>>)
@@ -223,6 +240,7 @@ C02Discovery == (Mode = "c02" /\ Quiet) => C02End(g, EndEvent) \subseteq {"disco
 C02DiscoveryStrict == (Mode = "c02" /\ Quiet) => C02End(g, EndEvent) = {}
 C03Complete == (Mode = "c03" /\ Quiet) => C03End(g, EndEvent) = {}
 C04Recovers == (Mode = "c04" /\ Quiet) => C04End(g, EndEvent) = {}
+C05Converges == (Mode = "c05" /\ Quiet) => C05End([g EXCEPT !.ids = [n \in Nodes |-> st[n].id]], EndEvent) = {}
 
-View == <<st, net, tmr, now, status, bad, budget, g.tFault, g.tDrop, g.listed, g.downAt, g.failed, g.leaver>>
+View == <<st, net, tmr, now, status, bad, budget, part, g.tHeal, g.toldDown, g.rejoined, g.activeAfter, g.tFault, g.tDrop, g.listed, g.downAt, g.failed, g.leaver>>
 =============================================================================
